@@ -234,7 +234,8 @@ class PartBuilder:
                        id=self.new_id(), voice=v + self.voice_base, staff=staff, symbolic_duration=dict(sym))
             if "articulations" in self.f and rng.random() < 0.15:
                 # one mark, or several on one note (they are not mutually exclusive)
-                n.articulations = sorted(rng.sample(["staccato", "accent", "tenuto"], rng.choice([1, 1, 2, 3])))
+                # (in any order: a list is a list)
+                n.articulations = rng.sample(["staccato", "accent", "tenuto", "strong-accent", "staccatissimo"], rng.choice([1, 1, 2, 3]))
             part.add(n, t, t + d)
             notes.append(n)
             self.all_notes.append(n)
